@@ -6,7 +6,7 @@ import os
 
 import vlib
 
-OPC = {"set": 0, "get": 1, "del": 2, "exists": 3, "append": 4, "remove": 5, "incr": 6, "setnx": 7, "dropc": 8, "dropall": 9, "setexp": 10, "setlist": 0}   # SetList(key, values) is modelled as Set(key, list): same steps under the key lock
+OPC = {"set": 0, "get": 1, "del": 2, "exists": 3, "append": 4, "remove": 5, "incr": 6, "setnx": 7, "dropc": 8, "dropall": 9, "setexp": 10, "setlist": 0, "getlist": 1}   # SetList(key, values) is modelled as Set(key, list): same steps under the key lock
 UNMODELLED = ("incrby", "sethash", "gethash", "delhash")
 MUTATING = ("set", "setlist", "del", "setnx", "append", "remove", "incr", "incrby", "sethash", "delhash", "setexp")
 
@@ -93,7 +93,7 @@ class Gen:
                     o = rng.choice(choices)
                     ops.append({"op": o, "k": k, "v": self.fresh()})
                 elif kind == "l":
-                    o = rng.choice(["append", "append", "remove", "get", "setexp", "setlist"])
+                    o = rng.choice(["append", "append", "remove", "get", "getlist", "setexp", "setlist"])
                     if o == "setlist" and any(x["op"] == "setlist" and x["k"] == k for t in threads for x in t["ops"]) or o == "setlist" and any(x["op"] == "setlist" and x["k"] == k for x in ops):
                         o = "append"
                     if o == "append":
@@ -245,6 +245,21 @@ def nodes_drop_cases(tables):
     return out
 
 
+def long_list_cases():
+    """one list grown past 256 / 512 / 1024 members by AppendToList (and shrunk again by RemoveFromList), read back with Get after every
+    step around each boundary — a cheap sequential history per key class"""
+    out = []
+    st = lambda n, op, v=0, l=None: {"node": n, "op": dict({"op": op, "k": 0, "v": v}, **({"l": l} if l is not None else {}))}
+    for key, shared in (("tunnox:user:longlist", False), ("tunnox:client_mappings:longlist", True), ("tunnox:client_mappings:longlist", False), ("tunnox:temp:longlist", False)):
+        for b in (256, 512, 1024):
+            steps = [st(0, "set", 0, list(range(1, b - 2))), st(0, "get")]
+            for e in range(b - 2, b + 4):
+                steps += [st(0, "append", e), st(0, "get")]
+            steps += [st(-1, "get"), st(0, "remove", b + 3), st(0, "get"), st(0, "remove", 5), st(0, "get"), st(0, "append", 5000 + b), st(0, "get"), st(-1, "get")]
+            out.append({"mode": "nodes", "shared": shared, "pers": True, "nodes": 2, "keys": [key], "kinds": ["x"], "init": [], "steps": steps, "boundary": b})
+    return out
+
+
 def nodes_case(rng, cats, fixed):
     shared, pers = rng.random() < 0.5, rng.random() < 0.85
     nn = rng.choice([2, 3])
@@ -326,6 +341,8 @@ def exhaustive_cases(cats, locked=False):
              # SetExpiration is a read-modify-write on the cache tier: it races every mutation of the key
              # SetList is the third list writer: against cache-miss readers and list read-modify-writers
              ("get", "setlist", g, 2, "s"), ("append", "setlist", l, 2, "l"), ("remove", "setlist", l, 2, "l"), ("setexp", "setlist", 2, 2, "s"),
+             # GetList is the list reader (it decodes JSON text): against every list writer and Delete; run with a JSON-text persistent tier
+             ("getlist", "append", g + 1, l, "l"), ("getlist", "remove", g + 1, l, "l"), ("getlist", "setlist", g + 1, 2, "l"), ("getlist", "del", g + 1, 2, "sl"),
              ("setexp", "set", 2, 2, "s"), ("setexp", "del", 2, 2, "s"), ("setexp", "append", 2, l, "l"), ("setexp", "remove", 2, l, "l")]
     keys = ["tunnox:user:1", "tunnox:conn_state:1", "tunnox:client_mappings:1", "tunnox:temp:1"]
     for (a, b, sa, sb, kind), key, shared, pers, cold in itertools.product(pairs, keys, (True, False), (True, False), (True, False)):
@@ -334,7 +351,10 @@ def exhaustive_cases(cats, locked=False):
         if cold and not two:
             continue
         ct = 1 if (cat in (2, 3) and shared) else 0
-        val = {"l": [1]} if kind == "l" else {"v": 1}
+        val = {"l": [1]} if kind in ("l", "sl") else {"v": 1}
+        jsonp = a == "getlist"
+        if kind == "sl":
+            kind = "s"      # a list VALUE judged by the freshness predicate (a deleted list must not come back)
         init = ([] if cold else [dict(tier=ct, k=0, **val)]) + ([dict(tier=2, k=0, **val)] if two else [])
         rd = {"ops": [{"op": "get", "k": 0, "v": 0}], "faults": []}
         opb = {"op": b, "k": 0, "v": 1 if b == "remove" else 3}
@@ -349,7 +369,7 @@ def exhaustive_cases(cats, locked=False):
             for w in places:
                 sched = inter[:w] + [3] + inter[w:]
                 out.append({"mode": "sched", "shared": shared, "pers": pers, "keys": [key], "kinds": [kind], "init": init, "threads": thr,
-                            "sched": sched, "max_wb": 3, "reader": True})
+                            "sched": sched, "max_wb": 3, "reader": True, "jsonp": jsonp})
     return out
 
 
@@ -553,6 +573,12 @@ def run(ctx, only_cases=None):
         cases += dc if thorough else [dc[i] for i in sorted(rng.sample(range(len(dc)), 250))] + [x for x in dc if x["table"] == "shared_persistent" and x["writes"][0] == "setnx"][:20]
         cases += [nodes_case(rng, cats, fixed["setnx"]) for _ in range(4000 if thorough else 350)]
         cases += alias_cases(rng, cats, 3000 if thorough else 200)
+        cases += long_list_cases()
+        gj = Gen(rng, cats, fixed["setnx"])
+        for _ in range(1500 if thorough else 150):
+            cj = gj.case()
+            cj["jsonp"] = True    # the persistent tier and seeded cache entries hold lists as JSON text (what a remote / database tier returns)
+            cases.append(cj)
         gp = Gen(rng, cats, fixed["setnx"])
         for _ in range(1500 if thorough else 150):
             cpl = gp.case()
